@@ -17,13 +17,16 @@ impl oracle   : the property itself evaluated on the REAL log: owner check at ev
                 ownership changes only by transfer/creation/cleanup, cleanup closes everything the reported
                 process owns, closed at most once, never closed while the owner is alive, every resource
                 of a terminated process closed at quiescence.  Confirmed defects are routed through
-                known_findings.json by narrow signatures (see KNOWN_* below)."""
+                known_findings.json by narrow signatures (see KNOWN_* below).  F48 (a stale handle re-sent
+                after close was re-registered and closed twice) is repaired in /repo (e2fa5e7): a second
+                close, or a transfer that registers an absent id, is a violation again; its reproducer is
+                a must-pass probe in corpus/c14_programs.txt."""
 import hashlib, json, os
 from vplib import sexpr
 
 MANIFEST = dict(
     category="proof",
-    text="Coq theorems over every event sequence of a model of the environment's resource-ownership handlers (effect request with owner check, effect completion, recursive transfer through tuples and closures on send/spawn, cleanup on ProcessResults) with the effect backend as a logged oracle: the ownership map is a function; after a send/spawn carrying r at any nesting depth the owner is the recipient and nothing else changes; ownership changes only by transfer, creation or cleanup; every execute on a resource present in the map comes from its owner and a denied request makes no backend call; close_resource is called only from the cleanup of a terminated owner, for everything it owns; at most once per resource and for every resource of a reported process — outside the classes refuted on the model AND reproduced on the real code (un-awaited owner never cleaned up; id absent from the map bypasses the owner check; a stale handle re-sent after its resource was closed is re-registered and closed again). Validated, not proved: that the model is the code (step-by-step differential execution of the extracted model against the real Environment + Workers on generated programs and schedules, plus the property oracles evaluated on the real backend log).",
+    text="Coq theorems over every event sequence of a model of the environment's resource-ownership handlers (effect request with owner check, effect completion, recursive transfer through tuples and closures on send/spawn, cleanup on ProcessResults) with the effect backend as a logged oracle: the ownership map is a function; after a send/spawn carrying r at any nesting depth the owner is the recipient and nothing else changes; ownership changes only by transfer, creation or cleanup; every execute on a resource present in the map comes from its owner and a denied request makes no backend call; close_resource is called only from the cleanup of a terminated owner, for everything it owns, and at most once per resource (given a backend that never reuses ids); every resource of a reported process is closed — outside the classes refuted on the model AND reproduced on the real code (F10 un-awaited owner never cleaned up; F47 id absent from the map bypasses the owner check; F49 a non-owner's send moves ownership). Validated, not proved: that the model is the code (step-by-step differential execution of the extracted model against the real Environment + Workers on generated programs and schedules, plus the property oracles evaluated on the real backend log).",
     design_ref="§5 C14",
     note="Persistent (root/REPL) processes that sleep and are resumed are outside the model (the root is treated as alive unless it failed). What a backend does with a closed descriptor is outside (quiver-io not modelled; its ids are never reused, which is the freshness hypothesis of closed_at_most_once). DeliverAction carries no sender, so neither the code nor the model checks that a handle is sent by its owner (observation reported, not part of the theorems). Trusted: Coq kernel, extraction (ExtrOcamlBasic), OCaml driver, Rust harness (in-memory transports, scheduler, instrumented backend), Python generator/oracles.",
     technique="Coq proof on an ownership automaton + step-by-step model/code correspondence on a deterministic single-threaded simulation of the real Environment and Workers + property oracles on the real backend log",
@@ -32,7 +35,6 @@ MANIFEST = dict(
 # finding keys (ids assigned by the maintainer; signatures implemented in `oracle` below)
 KNOWN_UNAWAITED = "F10"          # resource owned at quiescence by a terminated process never reported / given after a report
 KNOWN_STALE_USE = "F47"          # execute on an id absent from resource_ownership
-KNOWN_DOUBLE_CLOSE = "F48"       # second close of an id that a transfer re-registered after it was closed
 KNOWN_FOREIGN_TRANSFER = "F49"   # send/spawn by a process that does not own the resource it carries
 
 HEADER = ("'h = \\TestRes, 'm = H['h] | T[['h, 'int]] | D[[['h, 'int], 'int]] | F[(#[] -> 'h)] "
@@ -260,7 +262,6 @@ def oracle(run, stats):
     own, term, closed = {}, set(), {}
     reported = {}        # pid -> True once a ProcessResults listed it
     given_after = set()  # (r, p): an event that can give r to p was handled after p was reported
-    revived = set()      # ids a transfer (re)registered while absent from the map
     denied = []
     classes = dict(early=False, f47=False, f48=False, f49=False)
     for idx, st in enumerate(steps):
@@ -290,15 +291,17 @@ def oracle(run, stats):
                 if recipient in reported:
                     given_after.add((r, recipient))
                 if r not in own:
-                    revived.add(r)
                     classes["f48"] = True
                     stats["transfers_of_absent_id"] += 1
                 elif initiator != "?" and own[r] != initiator:
                     classes["f49"] = True
                     stats["transfers_by_non_owner"] += 1
                     problems.append(("transfer-by-non-owner", "%s: %s is carried by a %s of process %s but owned by %s" % (dump(ev), r, kind, initiator, own[r]), KNOWN_FOREIGN_TRANSFER))
-                if own_after.get(r) != recipient:
-                    problems.append(("transfer-postcondition", "after %s owner of %s is %s, not the recipient %s" % (dump(ev), r, own_after.get(r), recipient), None))
+                # a registered resource moves to the recipient; an id that is not registered (stale
+                # handle: closed at its owner's cleanup) must stay unregistered (F48, repaired)
+                expect = recipient if r in own else None
+                if own_after.get(r) != expect:
+                    problems.append(("transfer-postcondition", "after %s owner of %s is %s, expected %s" % (dump(ev), r, own_after.get(r), expect), None))
                 if recipient in term:
                     stats["transfers_to_terminated"] += 1
             if carried:
@@ -334,7 +337,7 @@ def oracle(run, stats):
                 stats["closes"] += 1
                 explained.add(r)
                 if closed.get(r):
-                    problems.append(("closed-twice", "close_resource(%s) called again" % r, KNOWN_DOUBLE_CLOSE if r in revived else None))
+                    problems.append(("closed-twice", "close_resource(%s) called again" % r, None))
                 closed[r] = closed.get(r, 0) + 1
                 o = own.get(r)
                 if o is None:
